@@ -299,8 +299,12 @@ Definition ctor (t : ty) (args : list (option value)) : result value :=
         match resolve_ty mt with
         | TyA et n =>            (* array wrapper: brace elision, the initialisers are the elements *)
           match all_some args with
-          | Some vs => if Nat.eqb (List.length vs) n
-                       then cs <~ rmap (implicit_conv (resolve_ty et)) vs ;; Done (VStruct [VArr cs])
+          | Some vs => (* C++14 aggregate initialisation: fewer initialisers than elements value-initialise
+                          (zero) the remaining elements; more are ill-formed *)
+                       if Nat.leb (List.length vs) n
+                       then cs <~ rmap (implicit_conv (resolve_ty et)) vs ;;
+                            (if Nat.eqb (List.length vs) n then Done (VStruct [VArr cs])
+                             else z <~ zero_of 64 et ;; Done (VStruct [VArr (cs ++ repeat z (n - List.length vs))]))
                        else Fail "constructor: array arity"
           | None => Fail "not modelled: {} among array initialisers"
           end
